@@ -279,6 +279,6 @@ def replay(v):
 
 MANIFEST_ENTRY = {
     "level_text": "Partial claim. The real compute() body (real decorators, accessors, StagedWriter, early return; real mcintegral of both geometry classes) is executed symbolically for all 48 structural configurations with a symbolic survival mask (every pattern of 2 (quick) / 3 (thorough) thrown events including 'none survives'): one row per surviving trajectory, every column of that length, the column set exactly the union of the enabled stages, the four keywords per enabled channel, a valid empty table when nothing survives, cross-stage consistency of the columns handed downstream, and channel isolation -- with the global generator modelled as a draw counter, every optical (radio) column and header value is term-identical with the radio (optical) channel switched off, and each stage is reached at the same position of the random sequence.",
-    "level_note": "NOT covered: bit-identical results under different dask schedulers (needs dask's schedulers; C10 not applicable) -- that clause is not claimed. Stage kernels are stubs returning symbolic columns; the table is a recording stub with astropy's length and duplicate checks.",
+    "level_note": "The scheduler clause is not encoded; a concrete probe checks that the shower-kernel object survives a cloudpickle round trip (what a serialising scheduler does to it). Paths with one survivor and missing stage columns are counterexamples and are replayed on a one-survivor run. NOT covered: bit-identical results under different dask schedulers (needs dask's schedulers; C10 not applicable) -- that clause is not claimed. Stage kernels are stubs returning symbolic columns; the table is a recording stub with astropy's length and duplicate checks.",
     "technique": "symbolic execution of the real compute() (DFS over survival patterns, z3 feasibility) with term identity for the isolation clauses",
 }
